@@ -12,7 +12,7 @@
 From Coq Require Import List ZArith NArith String Bool Lia FMapPositive.
 From SCC Require Import Base.Sexp Lang.AxSyn Sem.AxSem Model.Backend Model.A64 Sem.A64Sem Generated.Constants
      Proof.A64State Proof.A64ImmHw Proof.A64Imm Proof.A64Sel Proof.A64Exec Proof.A64MemSubst.
-From SCC Require Model.Heap Sem.X86Sem Proof.X86Mem Proof.X86MemFrame.
+From SCC Require Model.Heap Model.X86 Sem.X86Sem Proof.X86Mem Proof.X86MemFrame.
 Import ListNotations.
 Open Scope Z_scope.
 
@@ -208,6 +208,9 @@ Proof.
 Qed.
 Lemma field_not_blk p n j : is_blk p -> (j < 3)%N -> ~ is_blk (p + field_offset n j).
 Proof. intros Hb Hj. rewrite field_offset_val. apply X86MemFrame.not_blk_off; auto. destruct n; cbn [tnum_n]; lia. Qed.
+(* the two back ends lay blocks out identically *)
+Lemma fo_x86 n j : X86.field_offset n j = field_offset n j.
+Proof. rewrite X86MemFrame.field_offset_val, field_offset_val. reflexivity. Qed.
 Lemma fo_F0 : field_offset Fst 0 = 16. Proof. reflexivity. Qed.
 Lemma fo_F1 : field_offset Fst 1 = 32. Proof. reflexivity. Qed.
 Lemma fo_F2 : field_offset Fst 2 = 48. Proof. reflexivity. Qed.
